@@ -112,7 +112,7 @@ Variable pv : N.
 Variable sv : N.
 Variable bound : N.
 Variable u : counts.
-Variable fl : list (N * nat).
+Variable fl : list (N * kind).
 Variable W : world.
 
 Lemma aiis_frame l t ex c c' : c <= t < c' -> lut_frame l (snd (aiis u l t ex)) c c'.
@@ -198,18 +198,39 @@ Proof.
   apply (Em_if u l a ct bt l1 [] [] l1 H (Em_nil u l1)).
 Qed.
 
-(* the user variables in scope keep their binding *)
-Definition keep (sc : list N) (E E' : env) : Prop := forall v, In v sc -> sget (fmt_var v) E' = sget (fmt_var v) E.
+(* the user variables and the function names in scope keep their binding *)
+Definition keep (sc : list N) (E E' : env) : Prop :=
+  forall v, In v sc \/ In v (fnames fl) -> sget (fmt_var v) E' = sget (fmt_var v) E.
 
 Lemma keep_refl sc E : keep sc E E. Proof. intros v _. reflexivity. Qed.
 Lemma keep_trans sc E1 E2 E3 : keep sc E1 E2 -> keep sc E2 E3 -> keep sc E1 E3.
 Proof. intros H1 H2 v Hv. rewrite (H2 v Hv). apply H1. exact Hv. Qed.
+Lemma keep_trans_incl sc sc1 E1 E2 E3 : keep sc E1 E2 -> keep sc1 E2 E3 -> incl sc sc1 -> keep sc E1 E3.
+Proof.
+  intros H1 H2 Hi v Hv. rewrite H2; [apply H1; exact Hv|]. destruct Hv as [Hv|Hv]; [left; apply Hi; exact Hv | right; exact Hv].
+Qed.
+(* every name in scope is a user variable (below bound) *)
+Lemma scope_bound sc e st E stL v :
+  rel pv sv bound u fl W sc e st E stL -> In v sc \/ In v (fnames fl) -> v < bound.
+Proof.
+  intros Hrel [Hv|Hv]; [destruct (r_scb _ _ _ _ _ _ _ _ _ _ _ Hrel v Hv) | destruct (r_flb _ _ _ _ _ _ _ _ _ _ _ Hrel v Hv)]; assumption.
+Qed.
+(* a new temporary *)
+Lemma keep_temp sc e st E stL t p :
+  rel pv sv bound u fl W sc e st E stL -> bound <= t -> keep sc E (sset (fmt_var t) p E).
+Proof.
+  intros Hrel Hb v Hv. apply sget_sset_var. pose proof (scope_bound _ _ _ _ _ _ Hrel Hv). lia.
+Qed.
 (* a strict (temporaries only) frame keeps every user binding that exists; the ones that do not exist stay away *)
 Lemma keep_lframe sc e st E stL c c' E' stL' :
   rel pv sv bound u fl W sc e st E stL -> lframe c c' E stL E' stL' -> bound <= c -> keep sc E E'.
 Proof.
-  intros Hrel Hf Hb v Hv. destruct (r_vars _ _ _ _ _ _ _ _ _ _ _ Hrel v Hv) as (cc & x & p & _ & _ & Hp & _).
-  rewrite Hp. apply (lf_incl _ _ _ _ _ _ Hf). exact Hp.
+  intros Hrel Hf Hb v [Hv|Hv].
+  - destruct (r_vars _ _ _ _ _ _ _ _ _ _ _ Hrel v Hv) as (cc & x & p & _ & _ & Hp & _).
+    rewrite Hp. apply (lf_incl _ _ _ _ _ _ Hf). exact Hp.
+  - unfold fnames in Hv. apply in_map_iff in Hv as ([f ar] & <- & Hin).
+    destruct (r_fun _ _ _ _ _ _ _ _ _ _ _ f ar Hrel Hin) as (cc & ci & p & fid & _ & _ & Hp & _).
+    cbn [fst]. rewrite Hp. apply (lf_incl _ _ _ _ _ _ Hf). exact Hp.
 Qed.
 
 (* the success part of the conclusion; for a statement the scope grows from sc to sc' *)
@@ -347,15 +368,14 @@ Definition P_exec (n : nat) : Prop :=
 (* statement lists: the local functions defined on the way join the world; at the end the relation holds for the
    scope and the callable functions reached, in a world that fixes more than the one at the start.  An exit is
    seen from the start of the list. *)
-Definition blk_post (ctx : N) (sc sc' : list N) (flr : list (N * nat)) (e : senv) (F : list N) (c c' : N)
+Definition blk_post (ctx : N) (sc sc' : list N) (flr : list (N * kind)) (e : senv) (F : list N) (c c' : N)
            (E : env) (stL : state) (b : block) (r : SyltSem.res senv) (st' : sstate) : Prop :=
   match r with
   | SyltSem.RVal e' =>
       exists W' E' stL' F',
         ExecS E b stL (ROk (E', SigNormal) stL') /\ wframe bound c c' E stL E' stL' /\
         rel pv sv bound u flr W' sc' e' st' E' stL' /\ wsub W W' /\ F_new F F' c c' /\ keep sc E E' /\
-        sext sc e e' /\ incl sc sc' /\
-        (forall p lv, w_IL W' p lv -> w_IL W p lv \/ (s_ncell stL <= p)%positive)     (* what is newly fixed is new *)
+        sext sc e e' /\ incl sc sc'
   | _ => exit_post ctx sc e c c' E stL b r st'
   end.
 
@@ -383,7 +403,7 @@ Definition P_bv (n : nat) : Prop :=
     lower_eblock (statement g) (expression g) out body ctx c = Ok (code, c') ->
     frag_stmts pv sv bound fl k sc body = Some sc' -> ucovers u code -> ctx_ok l F E c c' -> rel pv sv bound u fl W sc e st E stL ->
     bound <= lo -> lo <= c -> c' <= hi -> lo <= out < hi -> ~ (c <= out < c') ->
-    sget (fmt_var out) E = Some p -> (forall lv, ~ w_IL W p lv) -> get_cell stL p = VNil -> alut_get l out = None -> 1 <= count_of u out ->
+    sget (fmt_var out) E = Some p -> (forall lv, ~ w_P W p lv) -> get_cell stL p = VNil -> alut_get l out = None -> 1 <= count_of u out ->
     interesting r ->
     exists b l', cshape l code b l' c c' /\ bv_post ctx sc e lo hi E stL b p r st'.
 
@@ -454,10 +474,26 @@ Definition call_frame (E : env) (stL stL' : state) : Prop :=
   (s_ncell stL <= s_ncell stL')%positive /\
   forall t p, bound <= t -> sget (fmt_var t) E = Some p -> get_cell stL' p = get_cell stL p.
 
+(* the arguments of a call, by the kinds of the parameters: related plain values, or the two halves of a closure
+   of the world with the kind the parameter wants *)
+Definition arel (K : kind) (av : sval) (lv : value) : Prop :=
+  match K with
+  | KP => vrel av lv
+  | KF _ _ => exists d, w_D W d /\ dkind d = K /\ av = SyltSem.SClos (fd_ci d) /\ lv = VFun (fd_fid d)
+  end.
+
+Inductive Forall3 {A B C} (R : A -> B -> C -> Prop) : list A -> list B -> list C -> Prop :=
+| F3_nil : Forall3 R [] [] []
+| F3_cons a b c la lb lc : R a b c -> Forall3 R la lb lc -> Forall3 R (a :: la) (b :: lb) (c :: lc).
+
+Lemma Forall3_length {A B C} (R : A -> B -> C -> Prop) la lb lc :
+  Forall3 R la lb lc -> length lb = length la /\ length lc = length la.
+Proof. induction 1; cbn; [auto | lia]. Qed.
+
+(* a call of a closure of the world *)
 Definition P_apply (n : nat) : Prop :=
   forall d avs lvs sc e st E stL r st',
-    rel pv sv bound u fl W sc e st E stL -> In d (w_funs W) -> In (fd_var d) (fnames fl) ->
-    Forall2 vrel avs lvs ->
+    rel pv sv bound u fl W sc e st E stL -> w_D W d -> Forall3 arel (fd_pk d) avs lvs ->
     SyltSem.apply n (SyltSem.SClos (fd_ci d)) avs st = (r, st') -> interesting r ->
     match r with
     | SyltSem.RVal v =>
